@@ -6,6 +6,7 @@ import (
 	"go/constant"
 	"go/token"
 	"go/types"
+	"sort"
 	"strings"
 
 	"golang.org/x/tools/go/ssa"
@@ -542,6 +543,154 @@ func checkC04(c *Ctx) {
 
 	// ---- C04.10 the registrations offered to the transports are today's
 	checkLiveLookup(c, "C04.10", "a registration that became valid (or was added) after that set was stored is not offered to the transports: the client's flight is not recognised")
+	// ---- C04.12 the registration is found under the address the connection arrived on: the handler holds that address
+	// in 16-byte form (net.IPv4(...)), the selector produced it in 4-byte form; net.IP.String() prints both alike,
+	// other renderings (netip, hex, raw bytes) do not
+	r.Rule("C04.12", "the per-phantom table is keyed by net.IP.String() everywhere", 4)
+	{
+		n := 0
+		var isIPString func(g *ssa.Function, v ssa.Value, d int) bool
+		isIPString = func(g *ssa.Function, v ssa.Value, d int) bool {
+			call, ok := v.(*ssa.Call)
+			if !ok || d > 2 {
+				return false
+			}
+			if calleeName(&call.Call) == "(net.IP).String" {
+				return true
+			}
+			// a key helper of the package: every return is net.IP.String()
+			if h := helperCallee(g, &call.Call); h != nil {
+				okAll, nRet := true, 0
+				eachInstr(h, func(in ssa.Instruction) {
+					if ret, ok := in.(*ssa.Return); ok && len(ret.Results) == 1 {
+						nRet++
+						okAll = okAll && isIPString(h, ret.Results[0], d+1)
+					}
+				})
+				return okAll && nRet > 0
+			}
+			return false
+		}
+		for _, f := range c.funcsOfPkgs("pkg/station/lib") {
+			eachInstr(f, func(in ssa.Instruction) {
+				var m, key ssa.Value
+				switch x := in.(type) {
+				case *ssa.Lookup:
+					m, key = x.X, x.Index
+				case *ssa.MapUpdate:
+					m, key = x.Map, x.Key
+				default:
+					return
+				}
+				ld, ok := m.(*ssa.UnOp)
+				if !ok {
+					return
+				}
+				if o, fld, ok := fieldOwner(ld.X); !ok || o != "lib.RegisteredDecoys" || fld != "decoys" {
+					return
+				}
+				// keys copied from a timeout record or ranged over are not constructions
+				kp := pathOf(key)
+				if strings.HasSuffix(kp, ".decoy") || strings.Contains(kp, "range(") || strings.Contains(kp, "rangeindex") {
+					return
+				}
+				n++
+				okk := isIPString(f, key, 0)
+				if !okk {
+					// held in a local that is assigned once from such a call
+					if u, isLoad := key.(*ssa.UnOp); isLoad {
+						if al, isA := u.X.(*ssa.Alloc); isA && al.Referrers() != nil {
+							for _, ref := range *al.Referrers() {
+								if st, isSt := ref.(*ssa.Store); isSt && st.Addr == ssa.Value(al) {
+									okk = isIPString(f, st.Val, 0)
+								}
+							}
+						}
+					}
+				}
+				r.Check(okk, "C04.12", fnName(f)+": r.decoys["+firstN(kp, 40)+"] keyed by net.IP.String()", in.Pos(), fnName(f), "key is (net.IP).String() of the phantom address",
+					"the per-phantom table is indexed with "+firstN(kp, 60)+", which is not net.IP.String(): the connection handler passes the original destination in 16-byte form while registrations were tracked from the 4-byte form, and only net.IP.String() renders both the same - the client's registration is not found")
+			})
+		}
+		if n == 0 {
+			r.Unk("C04.12", "accesses of RegisteredDecoys.decoys", token.NoPos, "", "none found")
+		}
+	}
+
+	// ---- C04.11 the relay reads and writes the matched connection from two goroutines at once: a connection type of
+	// the transports must not make Write wait for a Read that is blocked on an idle peer
+	r.Rule("C04.11", "no connection type of the transports takes one write lock in both Read and Write", 2)
+	{
+		type rw struct{ read, write *ssa.Function }
+		types_ := map[string]*rw{}
+		for _, f := range c.funcsOfPkgs("pkg/transports", "pkg/transports/wrapping/min", "pkg/transports/wrapping/prefix", "pkg/transports/wrapping/obfs4", "pkg/dtls", "pkg/transports/connecting/dtls") {
+			rc := f.Signature.Recv()
+			if rc == nil || (f.Name() != "Read" && f.Name() != "Write") {
+				continue
+			}
+			k := typeShort(rc.Type())
+			k = strings.TrimPrefix(k, "*")
+			if types_[k] == nil {
+				types_[k] = &rw{}
+			}
+			if f.Name() == "Read" {
+				types_[k].read = f
+			} else {
+				types_[k].write = f
+			}
+		}
+		locksOf := func(f *ssa.Function) map[string]bool {
+			out := map[string]bool{}
+			var visit func(g *ssa.Function, d int)
+			visit = func(g *ssa.Function, d int) {
+				eachInstr(g, func(in ssa.Instruction) {
+					ci, ok := in.(ssa.CallInstruction)
+					if !ok {
+						return
+					}
+					if p, mode, op := lockOp(ci.Common()); op == "lock" && mode == "W" {
+						// the field, whatever the receiver is called
+						if i := strings.Index(p, "."); i >= 0 {
+							p = p[i:]
+						}
+						out[p] = true
+					}
+					if h := helperCallee(g, ci.Common()); h != nil && d < 2 && h.Signature.Recv() != nil {
+						visit(h, d+1)
+					}
+				})
+			}
+			visit(f, 0)
+			return out
+		}
+		var names []string
+		for k := range types_ {
+			names = append(names, k)
+		}
+		sort.Strings(names)
+		n := 0
+		for _, k := range names {
+			t := types_[k]
+			if t.read == nil || t.write == nil {
+				continue
+			}
+			n++
+			lr, lw := locksOf(t.read), locksOf(t.write)
+			var shared []string
+			for p := range lr {
+				if lw[p] {
+					shared = append(shared, p)
+				}
+			}
+			sort.Strings(shared)
+			r.Check(len(shared) == 0, "C04.11", k+": Read and Write do not exclude each other", t.read.Pos(), fnName(t.read), fmt.Sprintf("%d / %d write lock(s), none in common", len(lr), len(lw)),
+				"Read and Write of "+k+" both take "+strings.Join(shared, ", ")+": the relay's upload goroutine sits in a blocking Read holding it while the client is idle, so the download goroutine's Write of the covert's reply waits until the client sends again (or the relay times out)")
+		}
+		if n == 0 {
+			r.Unk("C04.11", "connection types with Read and Write", token.NoPos, "", "none found in the transport packages")
+		}
+	}
+
 	// ---- C04.2 non-consuming failure
 	memo := map[*ssa.Function]*bufSummary{}
 	for _, f := range wrappingImpls(c) {
